@@ -11,7 +11,7 @@ import vlib
 
 
 class Case:
-    __slots__ = ('g', 'text', 'start', 'settings', 'semspec', 'tag')
+    __slots__ = ('g', 'text', 'start', 'settings', 'semspec', 'tag', 'failure')
 
     def __init__(self, g, text, start=None, settings=None, semspec=('none', {}), tag=''):
         self.g = g
@@ -20,6 +20,7 @@ class Case:
         self.settings = settings or E.Settings()
         self.semspec = semspec
         self.tag = tag
+        self.failure = None      # (class name, position) of the FailedParse the implementation reported, if any
 
     def describe(self):
         return {'grammar': E.grammar_text(self.g), 'text': self.text, 'start': self.start,
@@ -119,8 +120,10 @@ def gen_outcome(c: Case):
 
 def impl_outcome(c: Case, model):
     sem = E.make_semantics(c.semspec, [n for n, _, _ in c.g['rules']])
+    E.LAST_FAILURE = None
     out = with_timeout(lambda: E.run_impl(model, c.text, c.start, c.settings, semantics=sem), 2)
     calls = getattr(sem, '_calls', None) if sem is not None else None
+    c.failure = E.LAST_FAILURE if out[0] == 'fail' else None
     return out, calls
 
 
